@@ -118,6 +118,16 @@ def run_cell(cell, seed):
         ok, y = util.call_lib(modt, x)
         out.append(judge(cell, 'randn', x, ok, y))
         out[-1]['case'] = dict(out[-1]['case'], form='filter tuples')
+    if cell['qshift'] in ('qshift_06', 'qshift_a') and cell['J'] >= 2:
+        # history: in-place reload of the q-shift buffers with the other 10-tap table, then use again
+        other = 'qshift_a' if cell['qshift'] == 'qshift_06' else 'qshift_06'
+        cell2 = dict(cell, qshift=other, reloaded_from=cell['qshift'])
+        modr = build(cell)
+        xr = util.make_input('randn', [cell['N'], cell['C']] + sp, seed + 23)
+        if util.call_lib(modr, xr)[0]:
+            modr.load_state_dict(build(cell2).state_dict())
+            ok, y = util.call_lib(modr, xr)
+            out.append(judge(cell2, 'reload-randn', xr, ok, y))
     x = util.make_input('randn', [1, 1] + sp, seed)
     if util.call_lib(mod, x)[0]:
         st, detail, info = util.linear_certificate(lambda t: mod(t), [x], [torch.zeros_like(x)])
